@@ -56,8 +56,11 @@ class UF:
         if concrete and self.real is not None:
             out = as_symbytes(self.real(bytes(a.items)))
         else:
+            concrete = False
             out = SymBytes([ex.fresh_var(f"{self.name}_o", 0, 255) for _ in range(self.outlen)])
         for (b, o2) in self.calls:
+            if concrete and all(type(i) is int for i in b.items) and all(type(i) is int for i in o2.items):
+                continue    # two applications of the real function to concrete data: nothing to state
             if len(b) == len(a):
                 eq = _e(SymBytes.__eq__(a, b))
                 oeq = _e(SymBytes.__eq__(out, o2))
